@@ -131,6 +131,21 @@ def hardstate(cx):
             if s.fn is ls and "stmt" in s.data and is_f(write_value(cx, s), hf):
                 loaded.add(hf)
     cx.check(len(loaded) == 3, "load_state", "load_state writes back term, vote and commit (found %s)" % sorted(loaded))
+    # ... and the constructor calls it whenever the stored hard state is not the empty one -- whatever else the store
+    # holds (a node may have persisted nothing but a vote)
+    for c in callers_of(cx, ls):
+        gc = cx.pg(c.fn)
+        def nondefault(l):
+            if l[0] != "is" or l[1][0] != "bin" or l[1][1] not in ("Eq", "Ne"):
+                return False
+            xs = l[1][2:4]
+            isdef = lambda x: (x[0] == "call" and x[1].endswith("Default>::default")) or (x[0] == "adt" and x[1].endswith("HardState"))
+            ishs = lambda x: any(y[0] == "field" and y[2] == "RaftState.hard_state" for y in walk(x))
+            if not (any(isdef(x) for x in xs) and any(ishs(x) for x in xs)):
+                return False
+            return l[2] is (l[1][1] == "Ne")
+        okl, nl = gc.after_edge_must_pass(lambda lits: any(nondefault(l) for l in lits), lambda b, c=c: b == c.block)
+        cx.check(okl and nl >= 1, cx.site_key(c, "reload"), "%s reloads term, vote and commit whenever the stored HardState differs from the default one" % fn_name(c.fn), c)
     # ready(): hs handed out iff different from prev_hs; commit_ready stores it
     rd = cx.fn("RawNode::ready")
     g = cx.pg(rd)
